@@ -11,5 +11,5 @@ echo "== demo on mutated tree"; (cd $S && PYTHONPATH=/repo PYTHONWARNINGS=ignore
 echo "== vcheck $P $T on mutated tree"
 cd /verif && ./vcheck $P --tier $T --no-evidence 2>&1 | grep -E "^(VIOLATION|KNOWN|HELD|INCONCLUSIVE|$P tier)|mechanism" | cut -c1-400 | head -8
 echo "exit=$?"
-cd /repo && git checkout -- . && git status --short | head -3
+cd /repo && git checkout -- . && git clean -fdq BPTK_Py && git status --short | head -3
 rm -rf $S
